@@ -134,96 +134,115 @@ func init() {
 	// c02.e2e <transport: serverless|ssh> <files n0+n1+..> <delay ms per read> <chunk bytes>
 	// the real dcat binary with its stdout consumed slowly; returns what arrived
 	ops["c02.e2e"] = func(a []string) string {
-		var files []string
-		var c *cluster
-		dir := ""
-		if a[0] == "ssh" {
-			c = startCluster(1, map[string]interface{}{"MaxLineLength": 1024, "MaxConcurrentCats": 2})
-			defer c.stop()
-			dir = filepath.Join(c.dir, "data")
-		} else {
-			d, err := os.MkdirTemp(os.Getenv("VERIF_WORK"), "c02e-")
-			if err != nil {
-				panic(err)
-			}
-			defer os.RemoveAll(d)
-			dir = d
+		var sizes []int
+		for _, n := range strings.Split(a[1], "+") {
+			sizes = append(sizes, atoi(n))
 		}
-		for i, n := range strings.Split(a[1], "+") {
-			files = append(files, c02file(dir, i, atoi(n)))
+		return c02run(a[0], sizes, atoi(a[2]), atoi(a[3]), 0)
+	}
+
+	// c02.many <transport> <n files> <lines of the first file> <hold ms>
+	// many files in ONE session: the first file is larger than pipe + queue, and the harness reads nothing
+	// for <hold ms>, so its reader is still blocked (the session cannot go idle) while the client submits
+	// every command; then everything is read.  Every file must arrive completely.
+	ops["c02.many"] = func(a []string) string {
+		n := atoi(a[1])
+		sizes := []int{atoi(a[2])}
+		for i := 1; i < n; i++ {
+			sizes = append(sizes, 3)
 		}
-		delay, chunk := atoi(a[2]), atoi(a[3])
-		args := []string{"--plain", "--cfg", "none", "--logger", "stdout", "--logLevel", "error"}
-		var cmd *exec.Cmd
-		if c != nil {
-			args = append(args, "--trustAllHosts", "--key", c.keyFile, "--user", c.user, "--servers", c.servers())
-		}
-		args = append(args, "--files", strings.Join(files, ","))
-		cmd = exec.Command(filepath.Join(os.Getenv("VERIF_BIN"), "dcat"), args...)
-		if c != nil {
-			cmd.Dir = filepath.Join(c.dir, "home")
-			cmd.Env = append(os.Environ(), "HOME="+filepath.Join(c.dir, "home"), "SSH_AUTH_SOCK=")
-		}
-		devnull, _ := os.Open(os.DevNull)
-		defer devnull.Close()
-		cmd.Stdin = devnull
-		pr, pw, _ := os.Pipe()
-		cmd.Stdout = pw
-		if err := cmd.Start(); err != nil {
+		return c02run(a[0], sizes, 0, 32768, atoi(a[3]))
+	}
+}
+
+func c02run(transport string, sizes []int, delay, chunk, hold int) string {
+	var files []string
+	var c *cluster
+	dir := ""
+	if transport == "ssh" {
+		c = startCluster(1, map[string]interface{}{"MaxLineLength": 1024, "MaxConcurrentCats": 2})
+		defer c.stop()
+		dir = filepath.Join(c.dir, "data")
+	} else {
+		d, err := os.MkdirTemp(os.Getenv("VERIF_WORK"), "c02e-")
+		if err != nil {
 			panic(err)
 		}
-		pw.Close()
-		var out bytes.Buffer
-		b := make([]byte, chunk)
-		for {
-			n, err := pr.Read(b)
-			out.Write(b[:n])
-			if err != nil {
-				break
-			}
-			if delay > 0 {
-				time.Sleep(time.Duration(delay) * time.Millisecond)
-			}
-		}
-		status := 0
-		done := make(chan error, 1)
-		go func() { done <- cmd.Wait() }()
-		select {
-		case err := <-done:
-			if err != nil {
-				if ee, ok := err.(*exec.ExitError); ok {
-					status = ee.ExitCode()
-				} else {
-					status = -2
-				}
-			}
-		case <-time.After(30 * time.Second):
-			cmd.Process.Kill()
-			status = -9
-		}
-		// per file: which line numbers arrived, in order
-		per := map[string][]string{}
-		var order []string
-		for _, l := range strings.Split(out.String(), "\n") {
-			if l == "" {
-				continue
-			}
-			p := strings.SplitN(l, ":", 2)
-			if len(p) != 2 || !strings.HasPrefix(p[0], "f") {
-				return "MALFORMED " + hx([]byte(l))
-			}
-			if _, ok := per[p[0]]; !ok {
-				order = append(order, p[0])
-			}
-			per[p[0]] = append(per[p[0]], p[1])
-		}
-		var parts []string
-		for i := range files {
-			k := fmt.Sprintf("f%d", i)
-			parts = append(parts, k+"="+compress(per[k]))
-		}
-		return fmt.Sprintf("%d;%s", status, strings.Join(parts, "&"))
+		defer os.RemoveAll(d)
+		dir = d
 	}
+	for i, n := range sizes {
+		files = append(files, c02file(dir, i, n))
+	}
+	args := []string{"--plain", "--cfg", "none", "--logger", "stdout", "--logLevel", "error"}
+	var cmd *exec.Cmd
+	if c != nil {
+		args = append(args, "--trustAllHosts", "--key", c.keyFile, "--user", c.user, "--servers", c.servers())
+	}
+	args = append(args, "--files", strings.Join(files, ","))
+	cmd = exec.Command(filepath.Join(os.Getenv("VERIF_BIN"), "dcat"), args...)
+	if c != nil {
+		cmd.Dir = filepath.Join(c.dir, "home")
+		cmd.Env = append(os.Environ(), "HOME="+filepath.Join(c.dir, "home"), "SSH_AUTH_SOCK=")
+	}
+	devnull, _ := os.Open(os.DevNull)
+	defer devnull.Close()
+	cmd.Stdin = devnull
+	pr, pw, _ := os.Pipe()
+	cmd.Stdout = pw
+	if err := cmd.Start(); err != nil {
+		panic(err)
+	}
+	pw.Close()
+	if hold > 0 {
+		time.Sleep(time.Duration(hold) * time.Millisecond)
+	}
+	var out bytes.Buffer
+	b := make([]byte, chunk)
+	for {
+		n, err := pr.Read(b)
+		out.Write(b[:n])
+		if err != nil {
+			break
+		}
+		if delay > 0 {
+			time.Sleep(time.Duration(delay) * time.Millisecond)
+		}
+	}
+	status := 0
+	done := make(chan error, 1)
+	go func() { done <- cmd.Wait() }()
+	select {
+	case err := <-done:
+		if err != nil {
+			if ee, ok := err.(*exec.ExitError); ok {
+				status = ee.ExitCode()
+			} else {
+				status = -2
+			}
+		}
+	case <-time.After(30 * time.Second):
+		cmd.Process.Kill()
+		status = -9
+	}
+	// per file: which line numbers arrived, in order
+	per := map[string][]string{}
+	for _, l := range strings.Split(out.String(), "\n") {
+		if l == "" {
+			continue
+		}
+		p := strings.SplitN(l, ":", 2)
+		if len(p) != 2 || !strings.HasPrefix(p[0], "f") {
+			return "MALFORMED " + hx([]byte(l))
+		}
+		per[p[0]] = append(per[p[0]], p[1])
+	}
+	var parts []string
+	for i := range files {
+		k := fmt.Sprintf("f%d", i)
+		parts = append(parts, k+"="+compress(per[k]))
+	}
+	return fmt.Sprintf("%d;%s", status, strings.Join(parts, "&"))
 }
 
 // compress renders 1,2,3,...,n as "1..n" when the sequence is exactly that
